@@ -148,6 +148,13 @@ def load_one(lit: LineIterator) -> dict:
         result["atgradient"] = atgradient.reshape(-1, 3)
     athessian = fchk.get("Cartesian Force Constants")
     if athessian is not None:
+        natom = len(result["atnums"])
+        if athessian.size != (3 * natom * (3 * natom + 1)) // 2:
+            raise LoadError(
+                f"The number of Cartesian force constants ({athessian.size}) is inconsistent "
+                f"with the number of atoms ({natom}).",
+                lit,
+            )
         result["athessian"] = _triangle_to_dense(athessian)
     atfrozen = fchk.get("MicOpt")
     if atfrozen is not None:
